@@ -1413,6 +1413,60 @@ pub fn worker(w: &mut WorkerCtx) {
         let _ = std::env::set_current_dir(&sb.base);
         sb.reset();
     }
+    if w.shard == 3 % w.nshards {
+        // what a handle has written but not flushed yet: visible to a reader in the same way through every form
+        // (a wrapper that puts its own buffer around the backend's handle changes what others see meanwhile)
+        let p = format!("{}/open-handle", sb.root);
+        let mut seen: Vec<Vec<String>> = vec![];
+        for form in 0..4usize {
+            for kind in ["write", "append"] {
+                let _ = std::fs::write(&p, b"old");
+                let opened: RvResult<Box<dyn Write>> = match (form, kind) {
+                    (0, "write") => Stdfs::write(&p),
+                    (0, _) => Stdfs::append(&p),
+                    (1, "write") => Stdfs::new().write(&p),
+                    (1, _) => Stdfs::new().append(&p),
+                    (2, "write") => Vfs::Stdfs(Stdfs::new()).write(&p),
+                    (2, _) => Vfs::Stdfs(Stdfs::new()).append(&p),
+                    (_, "write") => Stdfs::new().upcast().write(&p),
+                    _ => Stdfs::new().upcast().append(&p),
+                };
+                let mut obs: Vec<String> = vec![];
+                let rd = || String::from_utf8_lossy(&std::fs::read(&p).unwrap_or_default()).into_owned();
+                match opened {
+                    Err(e) => obs.push(format!("open failed: {}", e)),
+                    Ok(mut h) => {
+                        obs.push(format!("after open: {:?}", rd()));
+                        let _ = h.write_all(b"first");
+                        obs.push(format!("after write: {:?}", rd()));
+                        let _ = h.flush();
+                        obs.push(format!("after flush: {:?}", rd()));
+                        let _ = h.write_all(b" second");
+                        obs.push(format!("after second write: {:?}", rd()));
+                        drop(h);
+                        obs.push(format!("after drop: {:?}", rd()));
+                    },
+                }
+                if kind == "write" {
+                    seen.push(obs);
+                } else {
+                    seen.last_mut().unwrap().extend(obs);
+                }
+            }
+        }
+        w.count("open_handle_visibility_comparisons", 3);
+        for (form, reference) in [(1usize, 0usize), (2, 1), (3, 1)] {
+            if seen[form] != seen[reference] {
+                let d = seen[form].iter().zip(seen[reference].iter()).find(|(a, b)| a != b).map(|(a, b)| format!("{}: {} / {}: {}", FORMS[form], a, FORMS[reference], b)).unwrap_or_default();
+                w.vio(
+                    &format!("{} write/append handle · what a reader sees while the handle is open differs from {}", FORMS[form], FORMS[reference]),
+                    move || d,
+                    || J::obj([("world", J::s("stdfs")), ("what", J::s("open-handle-visibility"))]),
+                );
+            }
+        }
+        let _ = std::fs::remove_file(&p);
+    }
     let trees = stdfs_trees(max_entries);
     let mut st = DStats::default();
     let mut ntrees = 0u64;
